@@ -198,6 +198,7 @@ def gen(rng, tier):
         for o2 in BINOPS13:
             cases.append({"s": f"x1{o1}np.log{o2}z_2", "kind": "pairs"})
             cases.append({"s": f"a {o1}  b{o2} c", "kind": "pairs"})
+            cases.append({"s": f"y~x1{o1}np.log{o2}z_2", "kind": "pairs-after-tilde"})
     kmax25 = 4 if tier == "thorough" else 3
     for k in range(1, kmax25 + 1):
         for tup in itertools.product(ALPHA25, repeat=k):
